@@ -24,6 +24,7 @@ pub fn prop() -> Prop {
             Sub::tape("thick_polylines_triangles", 24, 300_000, 15_000_000, thick_joins),
             Sub::tape("images", 120, 30_000, 1_500_000, |d, cx| run(d, cx, 2)),
             Sub::tape("text_random", 60, 100_000, 5_000_000, |d, cx| run(d, cx, 3)),
+            Sub::tape("text_spaced_fonts", 60, 60_000, 3_000_000, text_spaced_fonts),
             Sub::enumerate("fonts_matrix", fonts_matrix),
         ],
     }
@@ -196,5 +197,46 @@ fn display_scale(d: &mut Dec, cx: &mut Cx) -> Res {
         }
     }
     cx.nontrivial(t.pixels >= 1 && !bb.is_zero_sized());
+    Ok(())
+}
+
+
+/// Text in copies of the built-in fonts with character_spacing 1..=3 (spacing columns filled with
+/// the background, decorations spanning the spacing): everything painted must lie inside
+/// Text::bounding_box().
+fn text_spaced_fonts(d: &mut Dec, cx: &mut Cx) -> Res {
+    use embedded_graphics::mono_font::{MonoFont, MonoTextStyleBuilder};
+    use embedded_graphics::geometry::Dimensions;
+    use embedded_graphics::text::Text;
+    use embedded_graphics::Drawable;
+    type C = Rgb565;
+    let item = gen_text::<C>(d, 40, 12);
+    let spacing = d.u(1, 3);
+    let font = MonoFont { character_spacing: spacing, ..*item.font() };
+    cx.describe(|| format!("{} with character_spacing {}", item.desc(), spacing));
+    cx.class("spaced_font");
+    let style = MonoTextStyleBuilder::from(&item.char_style()).font(&font).build();
+    let text = Text::with_text_style(&item.text, item.pos, style, item.text_style());
+    let mut t = NativeT::<C>::new();
+    t.0.log = false;
+    text.draw(&mut t).map_err(|e| Fail { sig: "text:draw_error".into(), detail: format!("{:?}", e) })?;
+    let bb = text.bounding_box();
+    if style.is_transparent() && !t.0.map.is_empty() {
+        return fail("text:transparent_draws", "style is transparent but pixels were painted".to_string());
+    }
+    let transparent_spaced = item.text_color.is_none() && item.background.is_none();
+    for &(x, y) in t.0.map.keys() {
+        let p = Point::new(x, y);
+        if !bb.contains(p) {
+            // F-17 (known finding, see C14): with neither text nor background colour the decorations of
+            // a spaced font are one trailing spacing too wide
+            let right = bb.top_left.x + bb.size.width as i32;
+            if transparent_spaced && p.x >= right && p.x < right + spacing as i32 && p.y >= bb.top_left.y && p.y < bb.top_left.y + bb.size.height as i32 + 64 {
+                return fail("transparent_spaced_text:trailing_spacing", format!("{:?} (a decoration pixel in the trailing spacing) lies outside bounding_box() = {:?}", p, bb));
+            }
+            return fail("text:outside_bounding_box", format!("{:?} was painted but lies outside bounding_box() = {:?}", p, bb));
+        }
+    }
+    cx.nontrivial(!t.0.map.is_empty() && item.text.chars().filter(|c| *c != '\n' && *c != '\r').count() >= 2);
     Ok(())
 }
